@@ -239,6 +239,25 @@ SEEDS = {
         needs="a hard crash between the rename and the close, with a final write smaller than the file buffer",
         detected_by={"C27": "later_autosave_crash: completed autosave: the advertised file holds the new snapshot / is a complete snapshot"},
     ),
+    "C22b": dict(
+        property="C22",
+        change="_limit_endpoint tests `d_end * s_l < 0` instead of comparing signs: a flat end secant no longer zeroes the end slope (the original defect D1 in another guise, both ends)",
+        needs="first two or last two samples exactly equal while the neighbouring sample differs (2 ns delay at an end)",
+        detected_by={"C22": "extract_T3_K2_atoms1: delta[0,0] = PCHIP(det samples)(midpoint)", "C20": "shape_n3_uniform: slopes of interval 0 lie in the monotonicity region"},
+    ),
+    "C29b": dict(
+        property="C29",
+        change="_extract_omega_delta_phi clamps the interpolated PHASE at 0 like the amplitude (`if name != 'det'`)",
+        needs="a negative phase sample (hand-built samples, or an offset/negation applied at the sample level) and a time-varying phase",
+        detected_by={"C29": "adapter_phase_equivariance_T3_K2 (added): phases of the offset sequence = phases + c", "C22": "extract_T3_K2_atoms1: phi[k,0] = PCHIP(phase samples)(midpoint)"},
+        strengthened="C29 MISSED it at first (C22 caught it): C29 decided the equivalences on the Hamiltonians only. Added the adapter-level clause: the drives handed to both backends follow a phase offset / negation of the samples exactly, for phases of any sign",
+    ),
+    "C32b": dict(
+        property="C32",
+        change="minimize_bandwidth_impl applies and accumulates each round's permutation BEFORE the convergence test: the final, rejected round is folded into the returned permutation",
+        needs="a final rejected round that is strictly worse than the current order (near-optimal input order)",
+        detected_by={"C32": "impl_n1to2: the loop's matrix = original permuted by the returned permutation"},
+    ),
     "C02b": dict(
         property="C02",
         change="timestep_complete rebuilds the Hamiltonian with make_H from the PREVIOUS interaction matrix (assignment moved after make_H)",
